@@ -113,4 +113,48 @@ func MinOffset
       invariant[member] !first ==> has(visited, min)
       invariant[least]  forall o int64 :: has(visited, o) ==> min <= o
 
+
+// ================================================================ writing: durability typestate (C05, C06)
+
+// the handle of a writer refers to its path
+pred wrOK(w *Writer) := w != nil && w.f != nil && fPath[w.f] == w.Path
+
+// ASSUMED (I/O prologue: open, stat, header write or header check)
+func OpenWriter
+    flags assumed
+    assigns fPath, fsExists, fsDirty, fsContent
+    ensures err == nil ==> w != nil && fresh(w) && wrOK(w) && w.Path == path
+    ensures err != nil ==> w == nil
+    ensures forall g *os.File :: !fresh(g) ==> fPath[g] == old(fPath[g])
+    ensures forall p string :: p != path ==> fsExists[p] == old(fsExists[p]) && fsDirty[p] == old(fsDirty[p]) && fsContent[p] == old(fsContent[p])
+
+// the format-specific record writer behind (*Writer).writer; writeV1/writeV2 refine it
+field Writer.writer
+    requires[sync_ok] wrOK(self)
+    assigns fsDirty, fsContent
+    ensures[sync_frame] forall p string :: p != self.Path ==> fsDirty[p] == old(fsDirty[p]) && fsContent[p] == old(fsContent[p])
+
+func (*Writer).Write
+    flags noframe
+    requires[sync_ok] wrOK(w)
+    assigns fsDirty, fsContent
+    ensures[sync_frame] forall p string :: p != w.Path ==> fsDirty[p] == old(fsDirty[p]) && fsContent[p] == old(fsContent[p])
+
+func (*Writer).Sync
+    flags noframe
+    requires[sync_ok] wrOK(w)
+    assigns fsDirty
+    ensures[sync_clean] err == nil ==> !fsDirty[w.Path]
+    ensures[sync_frame] forall p string :: p != w.Path ==> fsDirty[p] == old(fsDirty[p])
+
+func (*Writer).Close
+    flags noframe
+
+func (*Writer).SyncAndClose
+    flags noframe
+    requires[sync_ok] wrOK(w)
+    assigns fsDirty
+    ensures[sync_clean] err == nil ==> !fsDirty[w.Path]
+    ensures[sync_frame] forall p string :: p != w.Path ==> fsDirty[p] == old(fsDirty[p])
+
 @*/
